@@ -1331,6 +1331,30 @@ func ruleC05IntegerRange(c *Ctx) {
 			}
 		})
 	}
+	// the same test written as a round trip through the narrower type: int64(int32(i)) != i rejects exactly the values
+	// outside the 32-bit range
+	for _, fn := range c.Closure(rule, "UNM").Sorted() {
+		core.EachInstr(fn, func(i ssa.Instruction) {
+			bo, ok := i.(*ssa.BinOp)
+			if !ok || (bo.Op != token.NEQ && bo.Op != token.EQL) {
+				return
+			}
+			for _, pair := range [][2]ssa.Value{{bo.X, bo.Y}, {bo.Y, bo.X}} {
+				outer, ok := pair[0].(*ssa.Convert)
+				if !ok {
+					continue
+				}
+				inner, ok := outer.X.(*ssa.Convert)
+				if !ok || inner.X != pair[1] {
+					continue
+				}
+				if b, ok := inner.Type().Underlying().(*types.Basic); ok && b.Kind() == types.Int32 {
+					n += 2
+					c.R.OK(rule, core.FuncName(fn)+":round-trip-through-int32", c.pos(bo), "the value is compared with its round trip through int32: exactly the 32-bit range passes")
+				}
+			}
+		})
+	}
 	c.R.Floor(rule, "range tests at the ends of the 32-bit range in the decoder", n, 2)
 }
 
